@@ -815,7 +815,19 @@ pub fn run(ctx: Ctx) -> ! {
         let d = case.get("derivation").cloned().unwrap_or(Value::Null);
         // for byte mutations the seed facts are recomputed from the recorded seed payload
         let seed = case.pointer("/derivation/seed_hex").and_then(|x| x.as_str()).and_then(|h| check(&validator, &mc_core::unhex(h), "seed", &|| json!("replay seed"), Expect::Any, None, &mut l, &stats));
-        check(&validator, &bytes, &family, &|| d.clone(), Expect::Any, seed.as_ref(), &mut l, &stats);
+        let second = check(&validator, &bytes, &family, &|| d.clone(), Expect::Any, seed.as_ref(), &mut l, &stats);
+        // signature-reuse cases carry the other transaction that bears the same (key, signature) bytes
+        if let Some(other) = case.pointer("/derivation/other_payload_hex").and_then(|x| x.as_str()) {
+            let other = mc_core::unhex(other);
+            println!("real (other content): {:?}", catch(|| RawNotarizedTransaction::from_slice(&other).validate(&validator).map(|_| "accepted").map_err(|e| err_label(&e))));
+            let first = check(&validator, &other, &family, &|| d.clone(), Expect::Any, None, &mut l, &stats);
+            if let (Some(a), Some(b)) = (first, second) {
+                if a.signed_hash != b.signed_hash {
+                    let pos = case.pointer("/derivation/position").and_then(|x| x.as_str()).unwrap_or("?");
+                    l.violation(format!("same-signature-accepted-for-two-contents:{pos}"), "both transactions carrying the same (key, signature) bytes are accepted", case.clone());
+                }
+            }
+        }
         ctx.merge(l);
         ctx.finish(Level::Exploration, "replay", 1, false, Map::new(), &[]);
     }
